@@ -184,8 +184,9 @@ structure WF (R : Route) (ops : List Op) (sch : List Entry) : Prop where
 /-- **Freshness.** For every set of concurrent get/exists/set/delete calls on a key of any category, every
 schedule, every placement of persistent-tier failures and of cache evictions: every read (and a final
 sequential `Get`) returns the value of a write — or the initial content — that had started when the read
-returned and is not older than any write that returned before the read started.  No stale value is ever
-brought back, and an expired cache entry loses nothing. -/
+returned and is not older than any write that returned before the read started; the value of a `Set` that reported an
+error is never returned (it was written nowhere).  No stale or uncommitted value is ever served, and an
+expired cache entry loses nothing. -/
 theorem C14_fresh (R : Route) (c s p : Option Val) (ops : List Op) (sch : List Entry)
     (wf : WF R ops sch) (hco : coherent R c s p = true) :
     holdsFresh (initVal R c s p) (model .repaired R c s p ops sch).ths
@@ -194,10 +195,11 @@ theorem C14_fresh (R : Route) (c s p : Option Val) (ops : List Op) (sch : List E
 
 /-- **List atomicity.** For every set of concurrent AppendToList/RemoveFromList calls on one list, every
 schedule, every placement of persistent-tier failures and of cache evictions: after all calls have returned,
-every element whose append succeeded (and that no call removes) is in the list, every element whose
-removal succeeded (and that no call appends) is not, nothing else has appeared, and every initial member
-that no call removes is still there — in particular a call whose reload of the list hit a persistent-tier
-failure fails without writing (it does not take the failed read for an empty list). -/
+every element whose append succeeded (and whose removal did not) is in the list, every element whose
+removal succeeded (and whose append did not) is not, nothing is in the list that was neither there
+initially nor successfully appended, and every initial member that was not successfully removed is still
+there — a call that returned an error (failed reload of the list, rejected persistent write) has changed
+nothing in any tier. -/
 theorem C14_list (R : Route) (c s p : Option Val) (ops : List Op) (sch : List Entry)
     (wf : WF R ops sch) (hco : coherent R c s p = true) :
     holdsList (initVal R c s p) (model .repaired R c s p ops sch).ths
@@ -428,6 +430,22 @@ example :
       [.app 7] [⟨0, none, none⟩, ⟨0, some .persistent, none⟩]).fget = .val (.list [1, 2]) ∧
     ((model .repaired (route (defaultStorage true true) "tunnox:client_mappings:k1") none none (some (.list [1, 2]))
       [.app 7] [⟨0, none, none⟩, ⟨0, some .persistent, none⟩]).ths.map (·.res)) = [some .err] := by
+  decide +kernel
+
+/-- The freshness predicate rejects a read that was served the value of a `Set` which reported failure
+(an uncommitted value). -/
+example : holdsFresh (some (.str 1))
+    [⟨.set (.str 5) 0, 1, 2, some .err⟩, ⟨.get, 3, 3, some (.val (.str 5))⟩] (.val (.str 1)) = false := by decide
+
+/-- The list predicate rejects a member that a failed append left behind, and a member that a failed
+remove made disappear. -/
+example : holdsList (some (.list [1])) [⟨.app 7, 1, 2, some .err⟩] (.val (.list [1, 7])) = false := by decide
+example : holdsList (some (.list [1, 2])) [⟨.rem 1, 1, 2, some .err⟩] (.val (.list [2])) = false := by decide
+
+/-- … the model of the repaired code writes nothing when the persistent tier rejects the write. -/
+example :
+    (model .repaired (route (defaultStorage true false) "tunnox:user:k1") (some (.str 1)) none (some (.str 1))
+      [.set (.str 5) 0] [⟨0, some .persistent, none⟩]).fin = (some (.str 1), none, some (.str 1)) := by
   decide +kernel
 
 /-- The list predicate rejects a lost append. -/
